@@ -447,7 +447,7 @@ def run(st, tier, seed):
         del pending[:]
 
     with ThreadPoolExecutor(max_workers=workers) as pool:
-        chunk = 24
+        chunk = 2 * workers
         for lo in range(0, len(cases), chunk):
             part = cases[lo:lo + chunk]
             if any(v >= 3 for v in stop_sigs.values()):
